@@ -1,1 +1,113 @@
-pub fn main() {}
+//! Isolated worker for untrusted-input sweeps (C08, decoder parts of C09): executes one case per input line on the
+//! REAL API and answers with the outcome, the CPU time and the bytes allocated. A crash, abort, hang or allocation
+//! failure kills only this process; the parent records it against the case that was announced.
+#![allow(non_snake_case)]
+use crate::common::*;
+use crate::zk::{Kind, Zk};
+use mccore::O;
+use refbbs::Suite;
+use serde_json::{json, Value};
+use std::alloc::{GlobalAlloc, Layout, System};
+use std::io::{BufRead, Write};
+use std::sync::atomic::{AtomicU64, Ordering};
+
+pub struct Counting;
+pub static ALLOCATED: AtomicU64 = AtomicU64::new(0);
+unsafe impl GlobalAlloc for Counting {
+    unsafe fn alloc(&self, l: Layout) -> *mut u8 { ALLOCATED.fetch_add(l.size() as u64, Ordering::Relaxed); System.alloc(l) }
+    unsafe fn dealloc(&self, p: *mut u8, l: Layout) { System.dealloc(p, l) }
+    unsafe fn realloc(&self, p: *mut u8, l: Layout, n: usize) -> *mut u8 { if n > l.size() { ALLOCATED.fetch_add((n - l.size()) as u64, Ordering::Relaxed); } System.realloc(p, l, n) }
+    unsafe fn alloc_zeroed(&self, l: Layout) -> *mut u8 { ALLOCATED.fetch_add(l.size() as u64, Ordering::Relaxed); System.alloc_zeroed(l) }
+}
+
+fn cpu_us() -> u64 {
+    let mut ts = libc::timespec { tv_sec: 0, tv_nsec: 0 };
+    unsafe { libc::clock_gettime(libc::CLOCK_THREAD_CPUTIME_ID, &mut ts) };
+    ts.tv_sec as u64 * 1_000_000 + ts.tv_nsec as u64 / 1000
+}
+
+pub struct Base { pub suite: Suite, pub key: Key, pub header: Vec<u8>, pub ph: Vec<u8>, pub msgs: Vec<Vec<u8>>, pub sig: Vec<u8>, pub proof: Vec<u8>, pub bmsgs: Vec<Vec<u8>>, pub bcms: Vec<Vec<u8>>, pub cwp: Vec<u8>, pub blind: [u8; 32], pub bsig: Vec<u8>, pub bproof: Vec<u8> }
+
+/// Honest artefacts the sweeps are derived from: L = 3 plain (disclosing {0}); blind L = 2, M = 2 (disclosing {0},{0}).
+pub fn base(s: Suite) -> Base {
+    let zk = z(s);
+    let k = key(s, "k0");
+    let header = b"c08-header".to_vec();
+    let ph = b"c08-ph".to_vec();
+    let msgs: Vec<Vec<u8>> = (0..3).map(|i| format!("c08-m{}", i).into_bytes()).collect();
+    let sig = zk.sign(&k.sk, &k.pk, Some(&header), Some(&msgs)).ok().expect("base sign");
+    let proof = zk.proof_gen(&k.pk, &sig, Some(&header), Some(&ph), Some(&msgs), Some(&[0])).ok().expect("base proof");
+    let bmsgs: Vec<Vec<u8>> = (0..2).map(|i| format!("c08-b{}", i).into_bytes()).collect();
+    let bcms: Vec<Vec<u8>> = (0..2).map(|i| format!("c08-c{}", i).into_bytes()).collect();
+    let (cwp, blind) = zk.commit(Some(&bcms)).ok().expect("base commit");
+    let bsig = zk.blind_sign(&k.sk, &k.pk, Some(&cwp), Some(&header), Some(&bmsgs)).ok().expect("base blind sign");
+    let bproof = zk.blind_proof_gen(&k.pk, &bsig, Some(&header), Some(&ph), Some(&bmsgs), Some(&bcms), Some(&[0]), Some(&[0]), Some(&blind)).ok().expect("base blind proof");
+    Base { suite: s, key: k, header, ph, msgs, sig, proof, bmsgs, bcms, cwp, blind, bsig, bproof }
+}
+
+fn usv(v: &Value) -> Vec<usize> { v.as_array().map(|a| a.iter().map(|x| x.as_u64().unwrap_or(0) as usize).collect()).unwrap_or_default() }
+fn us(v: &Value) -> usize { v.as_u64().unwrap_or(0) as usize }
+fn kind_of(s: &str) -> Kind { match s { "pk" => Kind::Pk, "sk" => Kind::Sk, "sig" => Kind::Sig, "bsig" => Kind::BlindSig, "proof" => Kind::Proof, _ => Kind::Commitment } }
+fn unit<T>(o: O<T>) -> O<()> { o.map(|_| ()) }
+fn take(m: &[Vec<u8>], n: usize) -> Vec<Vec<u8>> { (0..n).map(|i| m.get(i).cloned().unwrap_or_else(|| format!("extra-{}", i).into_bytes())).collect() }
+
+pub fn exec(zk: &dyn Zk, b: &Base, c: &Value) -> O<()> {
+    let bytes = c["b"].as_str().map(|h| hex::decode(h).unwrap_or_default()).unwrap_or_default();
+    let k = &b.key;
+    let (h, ph) = (Some(&b.header[..]), Some(&b.ph[..]));
+    match c["f"].as_str().unwrap_or("") {
+        "dec_pk" => unit(zk.dec_pk(&bytes)),
+        "dec_sk" => unit(zk.dec_sk(&bytes)),
+        "dec_sig" => unit(zk.dec_sig(&bytes)),
+        "dec_blind_sig" => unit(zk.dec_blind_sig(&bytes)),
+        "dec_proof" => unit(zk.dec_proof(&bytes)),
+        "dec_zkpok" => unit(zk.dec_zkpok(&bytes)),
+        "dec_commitment" => unit(zk.dec_commitment(&bytes)),
+        "dec_blind_factor" => unit(zk.dec_blind_factor(&bytes)),
+        "davc" => unit(zk.deserialize_and_validate_commit(Some(&bytes), 3)),
+        "proof_gen_sig" => unit(zk.proof_gen(&k.pk, &bytes, h, ph, Some(&b.msgs), Some(&[0]))),
+        "verify_pk" => zk.verify(&bytes, &b.sig, h, Some(&b.msgs)),
+        "blind_sign_cwp" => unit(zk.blind_sign(&k.sk, &k.pk, Some(&bytes), h, Some(&b.bmsgs))),
+        "proof_verify_bytes" => zk.proof_verify(&k.pk, &bytes, h, ph, Some(&b.msgs[..1]), Some(&[0])),
+        "blind_proof_verify_bytes" => zk.blind_proof_verify(&k.pk, &bytes, h, ph, Some(2), Some(&b.bmsgs[..1]), Some(&b.bcms[..1]), Some(&[0]), Some(&[0])),
+        "json" => unit(zk.octets_of_json(kind_of(c["kind"].as_str().unwrap_or("")), c["j"].as_str().unwrap_or(""))),
+        "proof_gen_idx" => unit(zk.proof_gen(&k.pk, &b.sig, h, ph, Some(&take(&b.msgs, us(&c["nm"]))), Some(&usv(&c["idx"])))),
+        "proof_verify_idx" => zk.proof_verify(&k.pk, &b.proof, h, ph, Some(&take(&b.msgs, us(&c["nm"]))), Some(&usv(&c["idx"]))),
+        "blind_proof_gen_idx" => unit(zk.blind_proof_gen(&k.pk, &b.bsig, h, ph, Some(&take(&b.bmsgs, us(&c["nm"]))), Some(&take(&b.bcms, us(&c["ncm"]))), Some(&usv(&c["idx"])), Some(&usv(&c["cidx"])), Some(&b.blind))),
+        "blind_proof_verify_idx" => {
+            let l = if c["l"].is_null() { None } else { Some(us(&c["l"])) };
+            zk.blind_proof_verify(&k.pk, &b.bproof, h, ph, l, Some(&take(&b.bmsgs, us(&c["nm"]))), Some(&take(&b.bcms, us(&c["ncm"]))), Some(&usv(&c["idx"])), Some(&usv(&c["cidx"])))
+        }
+        "update_signature" => unit(zk.update_signature(&k.sk, &b.sig, &b.msgs[0], b"new", us(&c["i"]), us(&c["n"]))),
+        "verify_n" => zk.verify(&k.pk, &b.sig, h, Some(&take(&b.msgs, us(&c["nm"])))),
+        "verify_blind_sign_n" => zk.verify_blind_sign(&k.pk, &b.bsig, h, Some(&take(&b.bmsgs, us(&c["nm"]))), Some(&take(&b.bcms, us(&c["ncm"]))), Some(&b.blind)),
+        "blind_sign_n" => unit(zk.blind_sign(&k.sk, &k.pk, Some(&b.cwp), h, Some(&take(&b.bmsgs, us(&c["nm"]))))),
+        "generators" => unit(zk.generators(us(&c["n"]), None)),
+        other => O::Err(format!("unknown case {}", other)),
+    }
+}
+
+pub fn main() {
+    mccore::quiet_panics();
+    // an allocation bomb must fail loudly inside this process, not take the machine down
+    unsafe { let lim = libc::rlimit { rlim_cur: 6 << 30, rlim_max: 6 << 30 }; libc::setrlimit(libc::RLIMIT_AS, &lim); }
+    let out = mccore::Out::capture();
+    let bases = [base(Suite::Sha256), base(Suite::Shake256)];
+    out.line("READY");
+    let stdin = std::io::stdin();
+    for line in stdin.lock().lines() {
+        let line = match line { Ok(l) => l, Err(_) => break };
+        if line.is_empty() { continue; }
+        let c: Value = match serde_json::from_str(&line) { Ok(v) => v, Err(_) => { out.line("{\"k\":\"bad-case\"}"); continue; } };
+        let bi = if c["s"] == "shake256" { 1 } else { 0 };
+        let zk = z(bases[bi].suite);
+        let a0 = ALLOCATED.load(Ordering::Relaxed);
+        let t0 = cpu_us();
+        let r = exec(zk, &bases[bi], &c);
+        let t1 = cpu_us();
+        let a1 = ALLOCATED.load(Ordering::Relaxed);
+        let msg = match &r { O::Ok(_) => String::new(), O::Err(e) => e.chars().take(80).collect(), O::Panic(p) => p.chars().take(160).collect() };
+        out.line(&json!({"k": r.kind(), "cpu_us": t1 - t0, "alloc": a1 - a0, "msg": msg}).to_string());
+    }
+    let _ = std::io::stdout().flush();
+}
